@@ -36,7 +36,8 @@ Hows(l) == IF NRows(l.tab) > 6 THEN HowsBig(l) ELSE
   \cup {[name |-> "copy"]} \cup {[name |-> "binning", b |-> 2]}
   \* save + reload of the molecules; CSV cannot keep the dtype of an all-null column (C13 covers CSV)
   \cup (IF l.bin = 1 THEN {[name |-> "roundtrip", fmt |-> f] : f \in {"parquet"}} ELSE {})
-Vias == {"asnumpy", "load_each", "load_iter", "dask", "align", "score", "apply", "landscape", "average", "kwargs_score", "kwargs_align"}
+Vias == {"asnumpy", "load_each", "load_iter", "dask", "align", "score", "apply", "landscape", "average", "kwargs_score", "kwargs_align",
+         "align_moved", "align_multi_moved"}
 GOps == {[name |-> "none"], [name |-> "align"], [name |-> "head", n |-> 1], [name |-> "tail", n |-> 1],
          [name |-> "filter", pred |-> [op |-> "ge", col |-> "k", c |-> 1]], [name |-> "sample", n |-> 1],
          [name |-> "apply"], [name |-> "sample_noseed", n |-> 1], [name |-> "sample_noseed_align", n |-> 1]}
